@@ -68,7 +68,10 @@ type Server struct {
 	Watches   int
 	WatchRVs  []string
 	ListTimes []int64
-	ListRVs   []int // server version at the snapshot of every successful list
+	// WatchTimes: virtual time of every Watch call; WatchFailed[i]: call i (0-based) returned a connect error
+	WatchTimes  []int64
+	WatchFailed []bool
+	ListRVs     []int // server version at the snapshot of every successful list
 	// StaleAtList: for every stale frame a faulty stream replayed, how many successful lists had taken their
 	// snapshot when it was delivered (a later list is needed to repair what the stale frame did)
 	StaleAtList []int
@@ -252,7 +255,18 @@ func (s *Server) List(ctx context.Context, opts metav1.ListOptions) (runtime.Obj
 	case "nonlist":
 		return &corev1.Pod{ObjectMeta: metav1.ObjectMeta{Name: "not-a-list"}}, nil
 	case "nonobjects":
-		return &metav1.List{ListMeta: snap.ListMeta, Items: []runtime.RawExtension{{Object: &notAList{}}}}, nil
+		// the real objects with one foreign (undecoded) item among them
+		l := &metav1.List{ListMeta: snap.ListMeta}
+		for i := range snap.Items {
+			if i == 1 {
+				l.Items = append(l.Items, runtime.RawExtension{Object: &notAList{}})
+			}
+			l.Items = append(l.Items, runtime.RawExtension{Object: &snap.Items[i]})
+		}
+		if len(snap.Items) < 2 {
+			l.Items = append(l.Items, runtime.RawExtension{Object: &notAList{}})
+		}
+		return l, nil
 	case "noaccessor":
 		return &notAList{}, nil
 	}
@@ -291,14 +305,17 @@ func (st *stream) Stop() {
 func (s *Server) Watch(ctx context.Context, opts metav1.ListOptions) (watch.Interface, error) {
 	var n int
 	var f WatchFault
+	wnow := vs.ClockHere()
 	vs.Atomic(s, func() {
 		s.Watches++
 		n = s.Watches
 		s.WatchRVs = append(s.WatchRVs, opts.ResourceVersion)
+		s.WatchTimes = append(s.WatchTimes, wnow)
 		var ok bool
 		if f, ok = s.WatchFaults[n]; !ok {
 			f = s.DefaultWatch
 		}
+		s.WatchFailed = append(s.WatchFailed, f.Kind == "error")
 	})
 	switch f.Kind {
 	case "error":
